@@ -637,11 +637,20 @@ def _check_case(ctx, res, case, n_configs, n_hist, model, phase):
     finally:
         restore()
 
+    # ---- operators over a population, interleaved with other operations on the expression
+    pop_reqs = []
+    phase[0] = 'population histories'
+    for _ in range(n_hist):
+        members, events = gen_population(rng, ctrls, rng.randint(4, 18))
+        lean_events, pobs, final = run_population(res, case, members, events)
+        pop_reqs.append(({'op': 'population', 'expr': lexpr, 'members': members, 'events': lean_events}, pobs, final, events))
+        res.tally('population_histories')
+
     if not model:
         return
     # ---- the Lean model
     reqs = [{'op': 'central', 'expr': lexpr, 'max': MAXN}]
-    reqs += [r for r, _ in id_reqs] + [r for r, _ in sel_reqs] + [r for r, _ in hist_reqs]
+    reqs += [r for r, _ in id_reqs] + [r for r, _ in sel_reqs] + [r for r, _ in hist_reqs] + [r for r, _, _, _ in pop_reqs]
 
     def cb(ans):
         m = ans[0]
@@ -688,11 +697,313 @@ def _check_case(ctx, res, case, n_configs, n_hist, model, phase):
             if tr != obs or not all(t.get('valid', True) for t in a.get('trace', [])):
                 res.diverge('operator history', {**case, 'start': rq['start'], 'steps': rq['steps']}, tr, obs)
             res.traces_validated += 1
+        for (rq, pobs, final, events) in pop_reqs:
+            a = ans[i]
+            i += 1
+            tr = [{k: v for k, v in t.items() if k != 'valid'} for t in a.get('trace', [])]
+            pcase = {**case, 'members': rq['members'], 'events': events}
+            if tr != pobs or not all(t.get('valid', True) for t in a.get('trace', [])) or not a.get('members_valid'):
+                res.diverge('population history (results of the operators and states of the expression)', pcase, tr, pobs)
+            elif not any('err' in t for t in pobs):
+                if a.get('members') != final:
+                    res.diverge('members of the population after the history', pcase, a.get('members'), final)
+                if a.get('members_applies_only') != a.get('members'):
+                    res.diverge('model: the members depend on the operations between the operator calls', pcase,
+                                a.get('members_applies_only'), a.get('members'))
+            res.traces_validated += 1
 
     ctx.batch.add_many(reqs, cb)
 
 
-# --------------------------------------------------------------------------- Controller.modify_controller, error paths
+# --------------------------------------------------------------------------- operators over a population of configurations
+#
+# A neighbourhood search keeps several configurations and applies the operators to any of them
+# while the expression itself is left in whatever state the last operation put it.  The stream
+# below interleaves operator calls on the members of a population with other operations on the
+# expression (configure, select one alternative, move a controller directly, iterate) and applies
+# oracles that only use the configuration handed to the operator:
+#   * the result is one of the valid configurations;
+#   * the result is the neighbour of the configuration GIVEN (documented moves of Increase /
+#     Decrease / Pair; for the random operators the controllers that were not drawn keep their
+#     alternative);
+#   * the same call (operator, configuration, step, random outcome) gives the same result
+#     whatever happened to the expression in between;
+#   * the opposite operator with the same step, applied to the result, gives back the configuration
+#     the first call was given (Increase <-> Decrease, Pair NE <-> SW, NW <-> SE);
+#   * configure_catalogs after any history makes every catalog show the alternative of its
+#     controller; a complete iteration after any history visits every configuration once.
+# The sequence of states and results is also compared with the Lean model (Cat.runEvents).
+
+OPPOSITE = {'NE': 'SW', 'SW': 'NE', 'NW': 'SE', 'SE': 'NW'}
+W_OPS = 'CentralController operators'
+
+
+def op_table(names):
+    """what each key of prepare_operators() denotes (insertion order of the code: a later equal key replaces)"""
+    t = {}
+    for n in names:
+        t[f'Increase {n}'] = ('inc', n)
+        t[f'Decrease {n}'] = ('dec', n)
+    for n1 in names:
+        for n2 in names:
+            if n1 != n2:
+                for d in ('NE', 'NW', 'SE', 'SW'):
+                    t[f'Pair_{n1}_{n2}_{d}'] = ('pair', n1, n2, d)
+    t['Increase_several'] = ('several', True)
+    t['Decrease_several'] = ('several', False)
+    return t
+
+
+def opposite_key(table, key):
+    d = table[key]
+    if d[0] == 'inc':
+        k2, want = f'Decrease {d[1]}', ('dec', d[1])
+    elif d[0] == 'dec':
+        k2, want = f'Increase {d[1]}', ('inc', d[1])
+    elif d[0] == 'pair':
+        k2, want = f'Pair_{d[1]}_{d[2]}_{OPPOSITE[d[3]]}', ('pair', d[1], d[2], OPPOSITE[d[3]])
+    else:
+        return None
+    return k2 if table.get(k2) == want else None
+
+
+def moved(ctrls, cfg, moves):
+    """configuration (dict) obtained from cfg by moving the listed controllers (wrap-around)"""
+    out = dict(cfg)
+    for n, by in moves:
+        specs = ctrls[n]
+        out[n] = specs[(specs.index(out[n]) + by) % len(specs)]
+    return out
+
+
+def cfg_id(cfg):
+    return ';'.join(f'{n}:{cfg[n]}' for n in sorted(cfg))
+
+
+def id_cfg(sid):
+    return dict(t.split(':', 1) for t in sid.split(';'))
+
+
+def gen_population(rng, ctrls, n_events):
+    """abstract population history: initial members and a list of events"""
+    names = sorted(ctrls)
+    table = op_table(names)
+    keys = list(table)
+    det = [k for k in keys if table[k][0] != 'several']
+    P = rng.randint(2, 4)
+    rand_cfg = lambda: {n: rng.choice(ctrls[n]) for n in names}  # noqa: E731
+    members = [cfg_id(rand_cfg()) for _ in range(P)]
+    events = []
+
+    def apply_ev(key, src, dst, step=None, choices=None, undo_of=None):
+        return {'e': 'apply', 'key': key, 'src': src, 'dst': dst,
+                'step': step if step is not None else rng.choice([1, 1, 2, -1, 0, 3, -7, 12, rng.randint(-40, 40)]),
+                'choices': choices if choices is not None else [rng.randint(0, 50) for _ in range(len(names) + 2)],
+                **({'undo_of': undo_of} if undo_of is not None else {})}
+
+    def disturb():
+        r = rng.random()
+        if r < 0.4:
+            return {'e': 'configure', 'id': cfg_id(rand_cfg()), 'via': rng.choice(['expression', 'central', 'central_id'])}
+        if r < 0.6:
+            n = rng.choice(names)
+            return {'e': 'select', 'name': n, 'index': rng.randrange(len(ctrls[n])), 'via': rng.choice(['expression', 'central', 'controller'])}
+        if r < 0.8:
+            n = rng.choice(names)
+            return {'e': 'modify', 'name': n, 'step': rng.choice([1, -1, 2, -3, 7, rng.randint(-9, 9)]), 'circular': rng.random() < 0.5}
+        return {'e': 'iterate', 'take': rng.choice([None, None, 1, 2, 3])}
+
+    while len(events) < n_events:
+        r = rng.random()
+        src = rng.randrange(P)
+        others = [i for i in range(P) if i != src]
+        if r < 0.25:
+            events.append(apply_ev(rng.choice(keys), src, rng.randrange(P)))
+        elif r < 0.5:
+            # the same call twice, something else happening to the expression in between
+            key = rng.choice(keys)
+            first = apply_ev(key, src, rng.choice(others))
+            events.append(first)
+            events.extend(disturb() for _ in range(rng.randint(1, 2)))
+            events.append(apply_ev(key, src, rng.choice(others), step=first['step'], choices=first['choices']))
+        elif r < 0.8:
+            # a move, then the opposite move with the same step on its result
+            key = rng.choice(det) if det else rng.choice(keys)
+            back = opposite_key(table, key)
+            d1 = rng.choice(others)
+            first = apply_ev(key, src, d1)
+            events.append(first)
+            at = len(events) - 1
+            events.extend(disturb() for _ in range(rng.randint(0, 2)))
+            if back is not None:
+                events.append(apply_ev(back, d1, rng.choice([i for i in range(P) if i != src]), step=first['step'], undo_of=at))
+        else:
+            events.append(disturb())
+    return members, events
+
+
+def run_population(res, case, members, events, report=True):
+    """execute an abstract population history on fresh real objects; apply the oracles; return
+    (events as the model sees them, observations, final members)"""
+    L = lib()
+    ctrls = walk_ctrls(case['expr'], {})
+    names = sorted(ctrls)
+    all_valid = valid_ids(ctrls)
+    table = op_table(names)
+    expr, cats = build_real(case)
+    conf_set = expr.set_of_configurations()
+    cc = expr.central_controller
+    ops = cc.prepare_operators()
+    ctrl_obj = {}
+    for node, cat in cats:
+        ctrl_obj.setdefault(node['ctrl'], cat.controlled_by)
+    mk = lambda sid: L.Configuration([L.SelectionTuple(n, s) for n, s in id_cfg(sid).items()])  # noqa: E731
+    pop = list(members)
+    memo = {}
+    calls = {}
+    lean_events, obs = [], []
+    done = []
+
+    def bad(what, observed, expected, where=W_OPS):
+        if report:
+            res.violate(what, {**case, 'members': members, 'events': done + [ev]}, observed, expected, where=where)
+        return True
+
+    fake, restore = patched_random()
+    try:
+        for i, ev in enumerate(events):
+            kind = ev['e']
+            state_before = expr.current_configuration().get_string_id()
+            if kind == 'apply':
+                key, step, rec = ev['key'], ev['step'], ev['choices']
+                given = pop[ev['src']]
+                fake.record = rec
+                fake.calls.clear()
+                try:
+                    new, ret = ops[key](mk(given), step)
+                except Exception as e:  # noqa: BLE001
+                    bad(f'operator {key!r} raises on the valid configuration {given!r} (expression configured as {state_before!r}): '
+                        f'{type(e).__name__}: {e}', err_tag(e), 'a valid configuration')
+                    obs.append({'err': err_tag(e)})
+                    lean_events.append({k: ev[k] for k in ('e', 'key', 'step', 'choices', 'src', 'dst')})
+                    break
+                nid = new.get_string_id()
+                lean_events.append({k: ev[k] for k in ('e', 'key', 'step', 'choices', 'src', 'dst')})
+                o = {'id': nid, 'ret': int(ret)}
+                calls[i] = given
+                stop = False
+                if nid not in all_valid:
+                    stop = bad(f'operator {key!r} leaves the set of valid configurations', nid, 'one of the valid configurations')
+                else:
+                    d = table[key]
+                    gcfg, ncfg = id_cfg(given), id_cfg(nid)
+                    if d[0] == 'several':
+                        drawn = set()
+                        for population, k in fake.calls:
+                            drawn.update(population[j % len(population)] for j in rec[:max(int(k), 0)])
+                        kept = [n for n in names if n not in drawn and ncfg[n] != gcfg[n]]
+                        if kept:
+                            stop = bad(f'operator {key!r} given {given!r} (expression configured as {state_before!r}) changes controllers that '
+                                       f'were not drawn: {kept}', nid, {n: gcfg[n] for n in kept})
+                    else:
+                        if d[0] == 'inc':
+                            mv = [(d[1], step)]
+                        elif d[0] == 'dec':
+                            mv = [(d[1], -step)]
+                        else:
+                            mv = [(d[1], step if d[3][1] == 'E' else -step), (d[2], step if d[3][0] == 'N' else -step)]
+                        want = cfg_id(moved(ctrls, gcfg, mv))
+                        if nid != want:
+                            stop = bad(f'operator {key!r} with step {step} given {given!r} while the expression is configured as '
+                                       f'{state_before!r} does not return the neighbour of the configuration it is given', nid, want)
+                    sig = (key, given, step, tuple(rec))
+                    if not stop and sig in memo and memo[sig][:2] != (nid, int(ret)):
+                        stop = bad(f'operator {key!r} with step {step} given {given!r} returns something else than the same call made earlier '
+                                   f'(expression configured as {state_before!r} now, as {memo[sig][2]!r} then)', [nid, int(ret)], list(memo[sig][:2]))
+                    memo.setdefault(sig, (nid, int(ret), state_before))
+                    if not stop and 'undo_of' in ev and ev['undo_of'] in calls:
+                        origin = calls[ev['undo_of']]
+                        first = events[ev['undo_of']]
+                        if nid != origin:
+                            stop = bad(f'{first["key"]!r} then {key!r} with the same step {step} does not return to the starting configuration',
+                                       nid, origin, where='increased_controller / decreased_controller / two_controllers')
+                o['state'] = expr.current_configuration().get_string_id()
+                obs.append(o)
+                res.tally('pop:' + table[key][0])
+                if stop:
+                    break
+                pop[ev['dst']] = nid
+            elif kind == 'configure':
+                c = mk(ev['id'])
+                if ev['via'] == 'expression':
+                    expr.configure_catalogs(c)
+                elif ev['via'] == 'central':
+                    cc.set_configuration(c)
+                else:
+                    cc.set_configuration_from_id(ev['id'])
+                now = expr.current_configuration().get_string_id()
+                want = id_cfg(ev['id'])
+                shown = {node['name']: cat.selected_name() for node, cat in cats}
+                wrong = sorted(node['name'] for node, cat in cats if cat.selected_name() != want[node['ctrl']])
+                lean_events.append({'e': 'configure', 'id': ev['id']})
+                obs.append({'state': now})
+                res.tally('pop:configure')
+                if now != ev['id'] or wrong:
+                    bad(f'after a history of operator calls, configuring {ev["id"]!r} leaves catalogs {wrong} on another alternative '
+                        f'(current configuration {now!r})', shown, want, where='Controller.set_index / Catalog.selected')
+                    break
+            elif kind == 'select':
+                if ev['via'] == 'expression':
+                    expr.select_expression(ev['name'], ev['index'])
+                elif ev['via'] == 'central':
+                    cc.set_controller(ev['name'], ev['index'])
+                else:
+                    ctrl_obj[ev['name']].set_index(ev['index'])
+                now = id_cfg(expr.current_configuration().get_string_id())
+                want = {**id_cfg(state_before), ev['name']: ctrls[ev['name']][ev['index']]}
+                wrong = sorted(node['name'] for node, cat in cats if cat.selected_name() != want[node['ctrl']])
+                lean_events.append({'e': 'select', 'name': ev['name'], 'index': ev['index']})
+                obs.append({'state': cfg_id(now)})
+                res.tally('pop:select')
+                if now != want or wrong:
+                    bad(f'selecting alternative {ev["index"]} of controller {ev["name"]!r} (from {state_before!r}) does not give the matching '
+                        f'configuration, or catalogs {wrong} do not follow', cfg_id(now), cfg_id(want), where='Controller.set_index / Catalog.selected')
+                    break
+            elif kind == 'modify':
+                c_ = ctrl_obj[ev['name']]
+                before = c_.current_index
+                ret = c_.modify_controller(step=ev['step'], circular=ev['circular'])
+                size = len(ctrls[ev['name']])
+                want = (before + ev['step']) % size if ev['circular'] else min(max(before + ev['step'], 0), size - 1)
+                lean_events.append({k: ev[k] for k in ('e', 'name', 'step', 'circular')})
+                obs.append({'ret': int(ret), 'state': expr.current_configuration().get_string_id()})
+                res.tally('pop:modify')
+                if c_.current_index != want:
+                    bad(f'modify_controller({ev["step"]}, circular={ev["circular"]}) of controller {ev["name"]!r} from index {before} selects the '
+                        f'wrong index', c_.current_index, want, where='Controller.modify_controller')
+                    break
+            elif kind == 'iterate':
+                if conf_set is None:
+                    continue
+                visited = []
+                for ee in expr:
+                    visited.append(ee.current_configuration().get_string_id())
+                    if ev['take'] is not None and len(visited) >= ev['take']:
+                        break
+                now = expr.current_configuration().get_string_id()
+                lean_events.append({'e': 'configure', 'id': now})
+                obs.append({'state': now})
+                res.tally('pop:iterate')
+                if (ev['take'] is None and sorted(visited) != sorted(all_valid)) or len(set(visited)) != len(visited) \
+                        or not set(visited) <= all_valid or (visited and now != visited[-1]):
+                    bad('iteration started after a history of operator calls does not visit every configuration exactly once',
+                        sorted(visited), sorted(all_valid) if ev['take'] is None else f'{ev["take"]} different valid configurations',
+                        where='SelectedExpressionsIterator')
+                    break
+            done.append(ev)
+    finally:
+        restore()
+    return lean_events, obs, pop
 
 
 def check_modify(ctx, res, n):
@@ -1265,6 +1576,8 @@ def replay(ctx, obj):
         elif case.get('shape') == 'helper':
             out.update({'property_fails': None, 'note': 'helper cases are replayed by re-running the check with the stored seed'})
             return out
+        elif 'expr' in case and 'events' in case:
+            run_population(r, {k: case[k] for k in ('expr', 'betas', 'rows')}, case['members'], case['events'])
         elif 'expr' in case:
             check_case(sub, r, {k: case[k] for k in ('expr', 'betas', 'rows')}, n_configs=125, n_hist=6, model=False)
         elif 'specs' in case:
